@@ -156,6 +156,32 @@ func collection(c *mon.Case, maxE int) {
 		total += o.Shape.NumEdges()
 		contract(c, o)
 	}
+	// accessor contract of a LaxPolygon with zero-vertex loops between the others, and single-vertex loops
+	// (not indexed: a zero-vertex loop of a LaxPolygon is the full loop)
+	if c.I%4 == 0 {
+		var ls [][]s2.Point
+		for k := 2 + r.Intn(6); k > 0; k-- {
+			switch r.Intn(4) {
+			case 0:
+				ls = append(ls, []s2.Point{})
+			case 1:
+				ls = append(ls, []s2.Point{gen.Near(r, ctr, scale)})
+			default:
+				ls = append(ls, gen.StarLoop(r, gen.Near(r, ctr, scale), 3+r.Intn(6), scale*0.05, scale*0.1).Vs)
+			}
+		}
+		contract(c, &gen.Obj{Shape: s2.LaxPolygonFromPoints(ls), Kind: "LaxPolygon(zero-and-one-vertex-loops)", Dim: 2})
+		// the same in a random access order (each lookup independent of the previous one)
+		lp := s2.LaxPolygonFromPoints(ls)
+		for k := 0; k < 20 && lp.NumEdges() > 0; k++ {
+			e := r.Intn(lp.NumEdges())
+			cp := lp.ChainPosition(e)
+			if cp.ChainID < 0 || cp.ChainID >= lp.NumChains() || cp.Offset < 0 || cp.Offset >= lp.Chain(cp.ChainID).Length || lp.Chain(cp.ChainID).Start+cp.Offset != e {
+				c.Violation("Shape/LaxPolygon(zero-and-one-vertex-loops)/ChainPosition-not-inverse/wrong-answer", fmt.Sprintf("ChainPosition(%d) = (%d,%d) does not name edge %d", e, cp.ChainID, cp.Offset, e), nil)
+				break
+			}
+		}
+	}
 	kinds := ""
 	for _, o := range objs {
 		kinds += o.Kind + " "
